@@ -33,6 +33,8 @@ type RunCtx struct {
 	Trivial bool             // true if no fault fired and no non-default decision was taken
 	LogHash uint64           // hash of the canonical event log, for replay confirmation
 	SimMs   uint64           // simulated milliseconds covered
+	Log     []string         // optional: canonical event log (returned in replay mode, used by cross-build comparison)
+	HashOut bool             // ask the worker to report the log hash of every run (cross-build comparison)
 	Ticks   uint64           // simulated CPU ticks covered
 }
 
@@ -88,6 +90,7 @@ type RunReport struct {
 	Sch       []uint32   `json:"sch,omitempty"`
 	Sample    string     `json:"sample,omitempty"`
 	LogHash   uint64     `json:"log_hash"`
+	Log       []string   `json:"log,omitempty"`
 }
 
 // Stats is what a worker reports at the end of a search command.
@@ -154,6 +157,7 @@ func WorkerMain() {
 			out.Flush()
 			ctx, rep := execRun(eng, &cmd, ReplayTape(cmd.Gen), ReplayTape(cmd.Sch), 0)
 			rep.Sample = ctx.Sample
+			rep.Log = ctx.Log
 			rep.Gen, rep.Sch = cmd.Gen, cmd.Sch
 			emit("P", rep)
 		case "search":
@@ -193,6 +197,9 @@ func WorkerMain() {
 				}
 				if rep.Violation != nil {
 					emit("V", rep)
+				}
+				if ctx.HashOut {
+					fmt.Fprintf(out, "H %d %d\n", idx, ctx.LogHash)
 				}
 			}
 			for h := range shapes {
